@@ -288,6 +288,11 @@ func (fr *Frame) exec(st *State, pc Term, ins ssa.Instruction) bool {
 			r := e.newRoot("visited", 0, "", "fresh")
 			st.cell[r] = termVal(Term{fmt.Sprintf("((as const (Array %s Bool)) false)", d.Key), Sort(fmt.Sprintf("(Array %s Bool)", d.Key))})
 			it.visRoot = r
+			if !fr.mapResizedInLoop(ins) {
+				c := e.newRoot("itercount", 0, "", "fresh")
+				st.cell[c] = termVal(IntLit(0))
+				it.cntRoot = c
+			}
 		}
 		fr.vals[ins] = Val{K: vIter, Iter: it}
 	case *ssa.Next:
@@ -331,6 +336,14 @@ func (fr *Frame) next(st *State, pc Term, ins *ssa.Next) {
 	q := Term{"qk", d.Key}
 	e.assume(Implies(Not(ok), T(SBool, "(forall ((qk %s)) (=> %s %s))", d.Key, u.MHas(m, q).S, App(SBool, "select", vis, q).S)))
 	st.cell[it.visRoot] = termVal(e.name("vis", Ite(ok, App(vis.Sort, "store", vis, k, True), vis)))
+	if it.cntRoot != nil {
+		// Go semantics: a range over a map that is not resized inside the loop produces each of its
+		// len(m) keys exactly once, so before the k-th key is produced 0 <= k < len(m)
+		cnt := st.cell[it.cntRoot].T
+		e.assume(And(Cmp("<=", IntLit(0), cnt), Cmp("<=", cnt, u.MCard(m))))
+		e.assume(Implies(ok, Cmp("<", cnt, u.MCard(m))))
+		st.cell[it.cntRoot] = termVal(e.name("itercount", Ite(ok, Arith("+", cnt, IntLit(1)), cnt)))
+	}
 	v := e.wrap(st, u.MGet(m, k), labelOf(it.Map))
 	kv := termVal(k)
 	if m.Sort == "MapYaml" {
@@ -962,4 +975,40 @@ func (e *Exec) mapCardFacts(x, y Term) {
 	e.assume(T(SBool, "(=> (forall ((k %s)) (= (select %s k) (select %s k))) (= %s %s))", ks, d1, d2, x.S, y.S))
 	e.assume(T(SBool, "(=> (and (= %s %s) (forall ((k %s)) (=> (select %s k) (select %s k)))) (forall ((k %s)) (=> (select %s k) (select %s k))))",
 		x.S, y.S, ks, d1, d2, ks, d2, d1))
+}
+
+// mapResizedInLoop: some instruction of the function inserts into or deletes from the map that r
+// ranges over (then the number of iterations is not len(m)).
+func (fr *Frame) mapResizedInLoop(r *ssa.Range) bool {
+	// the loop is the one whose head holds the Next of this iterator
+	var li *LoopInfo
+	if refs := r.Referrers(); refs != nil {
+		for _, ref := range *refs {
+			if nx, ok := ref.(*ssa.Next); ok && nx.Block() != nil {
+				li = fr.loops[nx.Block()]
+			}
+		}
+	}
+	if li == nil {
+		return true
+	}
+	for _, b := range fr.fn.Blocks {
+		if b != li.Head && !li.Body[b] {
+			continue
+		}
+		for _, ins := range b.Instrs {
+			switch ins := ins.(type) {
+			case *ssa.MapUpdate:
+				if ins.Map == r.X {
+					return true
+				}
+			case ssa.CallInstruction:
+				c := ins.Common()
+				if bi, ok := c.Value.(*ssa.Builtin); ok && bi.Name() == "delete" && len(c.Args) > 0 && c.Args[0] == r.X {
+					return true
+				}
+			}
+		}
+	}
+	return false
 }
